@@ -178,8 +178,8 @@ def units(tier):
                 k = int(np.prod(sh)) if sh else 1
                 if tier == "quick" and len(ss) == 2 and N in (1, 3) and sh not in ((), ss):
                     continue
-                if N >= 6 and (k > 2 or len(ss) == 2 and sh not in ((), ss[:1])):
-                    continue
+                if N >= 6 and (k > 2 or len(ss) == 2 and sh != ()):
+                    continue          # (two-element shifts on a 2x2 sample shape at N = 8: 361 paths x 32 element queries, > 50 min)
                 if N == 3 and k > 2 and tier == "quick":
                     continue
                 us.append(BinShift("bin", N, ss, sh, c64=(N == 2 and sh == ()), t0=(N != 3), align=next(aligns)))
